@@ -62,6 +62,7 @@ CmpDefined(a, b) ==
   /\ (b.t = "date" /\ a.t \in {"num", "blank"}) => DateSpecified(b)
   /\ (a.t = "date" /\ b.t = "num") => MsOK(QOf(b))
   /\ (b.t = "date" /\ a.t = "num") => MsOK(QOf(a))
+  /\ (a.t = "num" /\ b.t = "num") => (AbsI(a.n) <= 2000000000 \div b.d /\ AbsI(b.n) <= 2000000000 \div a.d)   \* cross-multiplication stays in 32 bits
 
 NumPos(v) == IF v.t = "date" THEN PosOfDate(v) ELSE PosOfQ(QOf(v))
 
